@@ -161,7 +161,7 @@ def one_decaps(R, prog, u, fn, pkt, last_cc, lastkind, full):
             return None
         if len(outs) != 1:
             return 'a packet with payload is not output (outputs: %d)' % len(outs)
-        _, uid, data, attrs = outs[0]
+        _, uid, data, attrs = outs[0][:4]
         want = pkt[d['payload_off']:]
         if data != want:
             return 'payload delivered is not the octets after the adaptation field: %d octets starting %s, expected %d starting %s' % (
@@ -263,6 +263,358 @@ def check_build_ts(rep, prog):
         raise facts.AnalysisBroken('R-build-ts domain shrank to %d inputs' % R.runs)
 
 
+# --------------------------------------------------------------- build_pes ---
+
+PTS_PROG = 300 * 0x123456789 + 77
+# payload sizes: small ones and, for every header size, the two sides of PES_packet_length = 65535
+PAYLOADS = tuple(sorted({0, 1, 1000, 70000} | {65535 + 6 - hs + d for hs in (6, 9, 14, 19, 25) for d in (0, 1)}))
+
+
+def expected_pes_header(pes_id, min_hdr, payload, align, pts, dts, off):
+    """reference PES header (ISO 13818-1 2.4.3.6/7) for what build_pes is asked"""
+    private2 = pes_id == 0xbf
+    if private2:
+        natural = 6
+    elif pts is None:
+        natural = 9
+    elif dts is None:
+        natural = 14
+    else:
+        natural = 19
+    hs = max(natural, min_hdr)
+    ln = payload + hs - 6
+    if ln > 65535:
+        ln = 0
+    if private2:
+        return [0, 0, 1, pes_id, ln >> 8, ln & 0xff] + [None] * (hs - 6), hs
+    v = lambda t: ((t + off) // 300) % (1 << 33)
+    h = tsref.pes_header(pes_id, ln, v(pts) if pts is not None else None, v(dts) if dts is not None else None,
+                         header_len=hs - 9, align=align)
+    return h, hs
+
+
+def check_build_pes(rep, prog):
+    u = prog.units[U_ENCAPS]
+    need(u, ['upipe_ts_encaps_build_pes', 'upipe_ts_encaps_pes_header_size'])
+    fn = u.funcs['upipe_ts_encaps_build_pes']
+    rep.rule('R-build-pes', 'for every stream id class (video, audio, private 1, private 2), PTS absent / alone / with a DTS that codes to the same or another '
+             '90 kHz value, minimal header size 0, 9, 14, 19, 25, alignment flag, payload sizes around the 16-bit length limit and clock offset: the header '
+             'is written inside its allocation, every octet of it is written, and it equals the reference PES header: start code, stream id, '
+             'PES_packet_length (0 when it does not fit 16 bits), marker bits, alignment, PTS_DTS_flags, PES_header_data_length, the coded timestamps and '
+             '0xff stuffing')
+    R = Runner(rep, 'R-build-pes')
+    for pes_id in (0xe0, 0xc0, 0xbd, 0xbf):
+        for min_hdr in (0, 9, 14, 19, 25):
+            if pes_id == 0xbf and min_hdr > 6:
+                continue      # private_stream_2 has no optional header to pad: not a configuration the mux sets
+            for ptsk, align, payload, off in itertools.product(('none', 'pts', 'same', 'diff'), (0, 1), PAYLOADS,
+                                                               (0, 300 * 0x0f0f0f0f)):
+                pts = None if ptsk == 'none' else PTS_PROG
+                dts = None if ptsk in ('none', 'pts') else (PTS_PROG - 50 if ptsk == 'same' else PTS_PROG - 300 * 3003)
+                exp_dts = dts if ptsk == 'diff' else None
+                want, hs = expected_pes_header(pes_id, min_hdr, payload, align, pts, exp_dts, off)
+                inst = 'id=%02x,min=%d,ts=%s,align=%d,payload=%d,off=%d' % (pes_id, min_hdr, ptsk, align, payload, off)
+                M64 = (1 << 64) - 1
+
+                def mk(pes_id=pes_id, min_hdr=min_hdr, off=off):
+                    return ghost.BlockMachine(prog, u, 'upipe_ts_encaps', {'pes_id': pes_id, 'pes_header_size': min_hdr, 'cr_prog_offset': off,
+                                                                             'ubuf_mgr': ('obj', 'mgr')}, inline=('upipe_ts_encaps_pes_header_size',))
+
+                def post(m, ret, want=want, hs=hs):
+                    if not (isinstance(ret, tuple) and ret[0] == 'ubuf'):
+                        return 'no header returned (%s)' % (ret,)
+                    data = m.bufs[ret[1]].data
+                    if len(data) != hs:
+                        return 'header of %d octets, reference %d' % (len(data), hs)
+                    for i, (a, b) in enumerate(zip(data, want)):
+                        if b is None:
+                            continue
+                        if a == ghost.UNINIT:
+                            return 'header octet %d of %d is never written' % (i, hs)
+                        if i in (9, 14) and i + 5 <= len(data) and want[7] >> 6 and i < 9 + 5 * bin(want[7] >> 6).count('1'):
+                            # first octet of a timestamp: the 4-bit prefix is the accessor's business, the value bits are the caller's
+                            if isinstance(a, int) and (a & 0x0f) == (b & 0x0f):
+                                continue
+                        if a != b:
+                            return 'header octet %d is %s, reference 0x%02x' % (i, ('0x%02x' % a) if isinstance(a, int) else a, b)
+                    return None
+                args = [PIPE, payload, align, pts if pts is not None else M64, dts if dts is not None else M64]
+                R.run(fn, inst, mk, lambda m, a=args: a, post)
+    rep.tables['R-build-pes'] = {'abstract_inputs': R.runs, 'paths': R.paths, 'octet_accesses_checked': R.derefs}
+    if R.runs < 1000:
+        raise facts.AnalysisBroken('R-build-pes domain shrank to %d inputs' % R.runs)
+
+
+# -------------------------------------------------------------------- pesd ---
+
+def check_pesd(rep, prog):
+    u = prog.units[U_PESD]
+    need(u, ['upipe_ts_pesd_decaps', 'upipe_ts_pesd_check_output', 'upipe_ts_pesd_flush'])
+    fn = u.funcs['upipe_ts_pesd_decaps']
+    rep.rule('R-pesd', 'for every PES header variant (stream ids with and without optional header, padding, PTS / PTS+DTS / none, header stuffing, '
+             'header_data_length too small for the announced timestamps, bad start code, bad marker bits, PES_packet_length 0 / exact / too small) cut at '
+             'every length: no octet is read outside the data received or from an unwritten local; the buffer being assembled is output, kept for more data '
+             'or freed - never lost; a complete legal header is removed exactly (9 + PES_header_data_length octets, 6 for streams without optional header) '
+             'and the payload output unchanged; the timestamps attached are the coded ones')
+    R = Runner(rep, 'R-pesd')
+    PTS, DTS = 0x123456789, 0x123456789 - 3003
+    variants = []
+    for sid in (0xe0, 0xbd):
+        for pts, dts in ((None, None), (PTS, None), (PTS, DTS)):
+            nat = 0 if pts is None else (5 if dts is None else 10)
+            for hl in sorted({nat, nat + 3, max(0, nat - 2)}):
+                for lenk in ('zero', 'exact', 'small'):
+                    variants.append(('opt', sid, pts, dts, hl, lenk, 'ok'))
+    variants.append(('opt', 0xe0, PTS, None, 5, 'zero', 'badstart'))
+    variants.append(('opt', 0xe0, PTS, None, 5, 'zero', 'badmarker'))
+    for sid in (0xbf, 0xf0, 0xbe):
+        variants.append(('plain', sid, None, None, 0, 'exact', 'ok'))
+    for kind, sid, pts, dts, hl, lenk, dmg in variants:
+        npay = 7
+        if kind == 'opt':
+            nat = 0 if pts is None else (5 if dts is None else 10)
+            hdr = tsref.pes_header(sid, 0, pts, dts, header_len=max(hl, nat))
+            hdr[8] = hl
+            hdr = hdr[:9 + max(hl, 0)] if hl >= nat else hdr[:9 + nat]
+            total = len(hdr) + npay
+        else:
+            hdr = [0, 0, 1, sid, 0, 0]
+            total = 6 + npay
+        ln = {'zero': 0, 'exact': total - 6, 'small': 2}[lenk]
+        hdr[4], hdr[5] = ln >> 8, ln & 0xff
+        if dmg == 'badstart':
+            hdr[2] = 2
+        if dmg == 'badmarker':
+            hdr[6] = 0x40
+        full = hdr + tsref.payload_tokens('e', npay)
+        for cut in range(0, len(full) + 1):
+            if cut not in (0, 1, 5, 6, 7, 8, 9) and not (len(hdr) - 6 <= cut <= len(hdr) + 1) and cut != len(full):
+                continue
+            data = full[:cut]
+            inst = 'sid=%02x,pts=%s,dts=%s,hl=%d,len=%s,%s,cut=%d/%d' % (sid, pts is not None, dts is not None, hl, lenk, dmg, cut, len(full))
+
+            def mk(data=data):
+                m = ghost.BlockMachine(prog, u, 'upipe_ts_pesd', {'next_uref_size': len(data), 'next_pes_size': 0, 'drop': 1, 'acquired': 0},
+                                       inline=('upipe_ts_pesd_check_output', 'upipe_ts_pesd_flush', 'upipe_ts_pesd_sync_'))
+                m.output_fns = {'upipe_ts_pesd_output'}
+                m.in_uref = m.new_uref(data, {'block.start': True})
+                m.f['next_uref'] = m.in_uref
+                return m
+
+            def post(m, ret, data=data, hdr=hdr, kind=kind, sid=sid, pts=pts, dts=dts, hl=hl, lenk=lenk, dmg=dmg, full=full):
+                inu = m.urefs[m.in_uref[1]]
+                outs = [e for e in m.events if e[0] == 'output']
+                kept = m.f.get('next_uref') == m.in_uref
+                n = (inu.state == 'freed') + (inu.state == 'output') + (1 if (kept and inu.state == 'owned') else 0)
+                if n != 1:
+                    return 'the buffer being assembled is in state %s and %s in next_uref: it must be exactly one of freed / output / kept' % (
+                        inu.state, 'still' if kept else 'not')
+                if kept and inu.state != 'owned':
+                    return 'next_uref still designates a buffer that was %s' % inu.state
+                lu, lb = m.leaked(keep=[m.f.get('next_uref')])
+                if lu or lb:
+                    return 'leak: urefs %s buffers %s' % (lu, lb)
+                # reference decision
+                if len(data) < 6:
+                    exp = 'keep'
+                elif dmg == 'badstart':
+                    exp = 'drop'
+                elif sid == 0xbe:
+                    exp = 'drop'
+                elif kind == 'plain':
+                    exp = ('out', 6)
+                elif lenk == 'small':
+                    exp = 'drop'
+                elif len(data) < 9:
+                    exp = 'keep'
+                elif dmg == 'badmarker':
+                    exp = 'drop'
+                else:
+                    nat = 0 if pts is None else (5 if dts is None else 10)
+                    if hl < nat:
+                        exp = 'drop'
+                    elif len(data) < 9 + hl:
+                        exp = 'keep'
+                    else:
+                        exp = ('out', 9 + hl)
+                got = 'out' if outs else ('keep' if kept else 'drop')
+                if (exp[0] if isinstance(exp, tuple) else exp) != got:
+                    return 'reference says %s, the function %s' % (exp, {'out': 'outputs', 'keep': 'waits for more data', 'drop': 'drops the data'}[got])
+                if got == 'out':
+                    _, uid, odata, attrs = outs[0][:4]
+                    if odata != data[exp[1]:]:
+                        return 'payload output is %d octets starting %s, reference %d octets starting %s' % (
+                            len(odata or []), (odata or [None])[:1], len(data) - exp[1], data[exp[1]:exp[1] + 1])
+                    if kind == 'opt' and pts is not None:
+                        d = dts if dts is not None else pts
+                        if attrs.get('clock.dts_orig') != d * 300 or attrs.get('clock.dts_pts_delay') != (pts - d) * 300:
+                            return 'timestamps attached dts_orig=%s delay=%s, coded dts=%d delay=%d (27 MHz)' % (
+                                attrs.get('clock.dts_orig'), attrs.get('clock.dts_pts_delay'), d * 300, (pts - d) * 300)
+                    elif 'clock.dts_orig' in attrs:
+                        return 'a timestamp is attached although none is coded'
+                return None
+            R.run(fn, inst, mk, lambda m: [PIPE, ('null',)], post)
+    rep.tables['R-pesd'] = {'abstract_inputs': R.runs, 'paths': R.paths, 'octet_accesses_checked': R.derefs}
+    if R.runs < 300:
+        raise facts.AnalysisBroken('R-pesd domain shrank to %d inputs' % R.runs)
+
+
+# -------------------------------------------------------------------- pese ---
+
+def check_pese(rep, prog):
+    u = prog.units[U_PESE]
+    need(u, ['upipe_ts_pese_work'])
+    fn = u.funcs['upipe_ts_pese_work']
+    rep.rule('R-pese', 'upipe_ts_pese_work on every stream id class x timestamp combination x minimal header size x 1..3 pending access units: the first '
+             'unit is output with the reference PES header (as R-build-pes) prepended to its unchanged payload and the unit-start flag, the other units '
+             'follow unchanged and in order, nothing is left pending, nothing is leaked or freed')
+    R = Runner(rep, 'R-pese')
+    for pes_id in (0xe0, 0xc0, 0xbd, 0xbf):
+        for min_hdr in (0, 9, 14, 19, 25):
+            if pes_id == 0xbf and min_hdr > 6:
+                continue
+            for ptsk, nunits, big in itertools.product(('none', 'pts', 'same', 'diff'), (1, 2, 3), (0, 1)):
+                pts = None if ptsk == 'none' else PTS_PROG
+                dts = None if ptsk in ('none', 'pts') else (PTS_PROG - 50 if ptsk == 'same' else PTS_PROG - 300 * 3003)
+                exp_dts = dts if ptsk == 'diff' else None
+                sizes = [5, 3, 4][:nunits]
+                total = sum(sizes) + (70000 if big else 0)      # the size field, not the ghost payload, carries the big case
+                want, hs = expected_pes_header(pes_id, min_hdr, total, 1, pts, exp_dts, 0)
+                inst = 'id=%02x,min=%d,ts=%s,units=%d,big=%d' % (pes_id, min_hdr, ptsk, nunits, big)
+
+                def mk(pes_id=pes_id, min_hdr=min_hdr, pts=pts, dts=dts, sizes=sizes, total=total):
+                    m = ghost.BlockMachine(prog, u, 'upipe_ts_pese', {'pes_id': pes_id, 'pes_header_size': min_hdr, 'next_pes_size': total,
+                                                                       'next_pes_duration': 0, 'ubuf_mgr': ('obj', 'mgr')}, inline=())
+                    m.output_fns = {'upipe_ts_pese_output'}
+                    m.units = []
+                    for i, sz in enumerate(sizes):
+                        attrs = {}
+                        if i == 0 and pts is not None:
+                            attrs['clock.pts_prog'] = pts
+                        if i == 0 and dts is not None:
+                            attrs['clock.dts_prog'] = dts
+                        m.units.append(m.new_uref(tsref.payload_tokens('u%d_' % i, sz), attrs))
+                    m.make_list(m.head('upipe_ts_pese', 'next_pes'), m.units)
+                    m.payloads = [list(m.data_of(x)) for x in m.units]
+                    return m
+
+                def post(m, ret, want=want, hs=hs):
+                    outs = [e for e in m.events if e[0] == 'output']
+                    if [e[1] for e in outs] != [x[1] for x in m.units]:
+                        return 'units output %s, pending were %s (order / loss / duplication)' % ([e[1] for e in outs], [x[1] for x in m.units])
+                    if m.list_of(m.head('upipe_ts_pese', 'next_pes')):
+                        return 'units are left pending after the PES was output'
+                    if m.f.get('next_pes_size') != 0:
+                        return 'next_pes_size is %s after the PES was output' % m.f.get('next_pes_size')
+                    first = outs[0]
+                    data = first[2]
+                    if data is None or data[hs:] != m.payloads[0]:
+                        return 'payload of the first unit is not preserved after a %d-octet header' % hs
+                    if not first[3].get('block.start'):
+                        return 'unit start flag missing on the PES'
+                    for i, (a, b) in enumerate(zip(data[:hs], want)):
+                        if b is None:
+                            continue
+                        if a == ghost.UNINIT:
+                            return 'header octet %d of %d is never written' % (i, hs)
+                        if i in (9, 14) and want[7] >> 6 and i < 9 + 5 * bin(want[7] >> 6).count('1') and isinstance(a, int) and (a & 0x0f) == (b & 0x0f):
+                            continue
+                        if a != b:
+                            return 'header octet %d is %s, reference 0x%02x' % (i, ('0x%02x' % a) if isinstance(a, int) else a, b)
+                    for k, e in enumerate(outs[1:], 1):
+                        if e[2] != m.payloads[k]:
+                            return 'unit %d is modified on its way through' % k
+                    lu, lb = m.leaked()
+                    if lu or lb:
+                        return 'leak: urefs %s buffers %s' % (lu, lb)
+                    return None
+                R.run(fn, inst, mk, lambda m: [PIPE, ('null',)], post)
+    rep.tables['R-pese'] = {'abstract_inputs': R.runs, 'paths': R.paths, 'octet_accesses_checked': R.derefs}
+    if R.runs < 300:
+        raise facts.AnalysisBroken('R-pese domain shrank to %d inputs' % R.runs)
+
+
+# ------------------------------------------------------------ split / pidf ---
+
+def check_routing(rep, prog):
+    rep.rule('R-route', 'upipe_ts_split_input: for every PID of {0, 1, 68, 0x1ffe, 0x1fff} and 0..3 outputs registered on it (and outputs registered on '
+             'neighbouring PIDs): each output registered on the PID of the packet receives the packet once and unchanged, no other output receives anything, '
+             'the input is output or freed. upipe_ts_pidf: after add_pid(p) a packet passes iff its PID is p (neighbours p^1, p^8, p+-8 do not), after '
+             'del_pid(p) it does not; the bitmap is indexed inside its bounds')
+    R = Runner(rep, 'R-route')
+    u = prog.units['lib/upipe-ts/upipe_ts_split.c']
+    need(u, ['upipe_ts_split_input'])
+    fn = u.funcs['upipe_ts_split_input']
+    for pid in (0, 1, 68, 0x1ffe, 0x1fff):
+        for nsub in (0, 1, 2, 3):
+            for other in (None, pid ^ 1, (pid + 8) & 0x1fff):
+                inst = 'pid=%d,subs=%d,other=%s' % (pid, nsub, other)
+                pkt = tsref.ts_packet(pid=pid, cc=3)
+
+                def mk(pid=pid, nsub=nsub, other=other, pkt=pkt):
+                    m = ghost.BlockMachine(prog, u, 'upipe_ts_split', {'pids': ('p', 'pids', 0)}, inline=())
+                    m.regions['pids'] = 8192
+                    m.output_fns = {'upipe_ts_split_sub_output'}
+                    m.subs = [('obj', 'sub%d' % i) for i in range(nsub)]
+                    for q in range(0, 8192):
+                        pass
+                    # every PID has an (empty) list; only the ones used are materialised
+                    for q in {pid, other} - {None}:
+                        head = ('addr', 'field', ('lv', 'mem', ('p', 'pids', q)), 'upipe_ts_split_pid', 'subs')
+                        m.make_list(head, m.subs if q == pid else [('obj', 'othersub')])
+                    m.in_uref = m.new_uref(pkt)
+                    return m
+
+                def post(m, ret, pkt=pkt):
+                    outs = [e for e in m.events if e[0] == 'output']
+                    got = sorted(str(e[4]) for e in outs)
+                    if got != sorted(str(x) for x in m.subs):
+                        return 'outputs served %s, registered on the PID %s' % (got, [str(x) for x in m.subs])
+                    for e in outs:
+                        if e[2] != pkt:
+                            return 'the packet delivered is modified'
+                    if m.urefs[m.in_uref[1]].state == 'owned':
+                        return 'the input packet is neither output nor freed'
+                    lu, lb = m.leaked()
+                    if lu or lb:
+                        return 'leak: urefs %s buffers %s' % (lu, lb)
+                    return None
+                R.run(fn, inst, mk, lambda m: [PIPE, m.in_uref, ('null',)], post)
+    u2 = prog.units['lib/upipe-ts/upipe_ts_pid_filter.c']
+    need(u2, ['upipe_ts_pidf_input', '_upipe_ts_pidf_add_pid', '_upipe_ts_pidf_del_pid'])
+    fin, fadd, fdel = (u2.funcs[n] for n in ('upipe_ts_pidf_input', '_upipe_ts_pidf_add_pid', '_upipe_ts_pidf_del_pid'))
+    for p in (0, 1, 7, 8, 68, 0x1ff7, 0x1fff):
+        for q in sorted({p, p ^ 1, p ^ 8, (p + 8) & 0x1fff, (p - 8) & 0x1fff, p ^ 0x100}):
+            for deleted in (0, 1):
+                inst = 'add=%d,del=%d,packet=%d' % (p, deleted, q)
+                pkt = tsref.ts_packet(pid=q, cc=3)
+
+                def mk(p=p, deleted=deleted, pkt=pkt):
+                    m = ghost.BlockMachine(prog, u2, 'upipe_ts_pidf', {'enabled_pids': ('p', 'bitmap', 0)}, inline=())
+                    m.regions['bitmap'] = 8192 // 8
+                    for i in range(8192 // 8):
+                        m.mem[('bitmap', i)] = 0
+                    m.output_fns = {'upipe_ts_pidf_output'}
+                    m.run(fadd, [PIPE, p])
+                    if deleted:
+                        m.run(fadd, [PIPE, p ^ 1])
+                        m.run(fdel, [PIPE, p])
+                    m.in_uref = m.new_uref(pkt)
+                    return m
+
+                def post(m, ret, p=p, q=q, deleted=deleted):
+                    outs = [e for e in m.events if e[0] == 'output']
+                    exp = (q == p and not deleted) or (deleted and q == p ^ 1)
+                    if bool(outs) != exp:
+                        return 'a packet of PID %d %s after add_pid(%d)%s' % (q, 'passes' if outs else 'is filtered out', p,
+                                                                               ', add_pid(%d), del_pid(%d)' % (p ^ 1, p) if deleted else '')
+                    if m.urefs[m.in_uref[1]].state == 'owned':
+                        return 'the input packet is neither output nor freed'
+                    return None
+                R.run(fin, inst, mk, lambda m: [PIPE, m.in_uref, ('null',)], post)
+    rep.tables['R-route'] = {'abstract_inputs': R.runs, 'paths': R.paths, 'octet_accesses_checked': R.derefs}
+
+
 def run(tier='quick', repo=None):
     repo = repo or facts.REPO
     rep = Report(PROP, tier)
@@ -281,6 +633,10 @@ def run(tier='quick', repo=None):
     rep.nfuncs = sum(len(x.funcs) for x in prog.units.values()) + len(prog.hdr.funcs)
     check_decaps(rep, prog)
     check_build_ts(rep, prog)
+    check_build_pes(rep, prog)
+    check_pesd(rep, prog)
+    check_pese(rep, prog)
+    check_routing(rep, prog)
     rep.assumptions = ['the stub accessors of /verif/stubs/bitstream index the same octets as biTStream (ISO 13818-1 layouts); the reference layouts '
                        'of upv/tsref.py are written independently and must agree with them for the checks to pass',
                        'the block / uref API behaves as its ghost model (upv/ghost.py): peek / extract / read refuse ranges outside the buffer '
